@@ -8,14 +8,15 @@ from sim import run_scenario
 from .base import Result, V
 from . import simcommon as SC
 
-MODULES = ["TickitModel.Props.C12"]
-THEOREMS = ["never_early", "exact_when_free", "late_immediate", "stamp_law", "interrupt_due_now", "linear_step_callback", "linear_step_interrupt"]
+MODULES = ["TickitModel.Props.C12", "TickitModel.Props.C12Run"]
+THEOREMS = ["never_early", "exact_when_free", "late_immediate", "stamp_law", "interrupt_due_now", "linear_step_callback", "linear_step_interrupt",
+            "run_never_early", "run_step_law", "run_linear_law", "run_linear_exact_of_dvd", "run_linear_exact", "run_stamp_law", "stamp_written"]
 ANCHORS = ["src/tickit/core/management/schedulers/master.py"]
 TECHNIQUE = "Lean 4 theorems (exact integer/rational arithmetic of sleep_time and the interrupt stamp: never early for any processing cost, exact when free, stamp = floor law, linear law by induction) + differential run of MasterScheduler.sleep_time / schedule_interrupt and whole-simulation timing under a virtual clock against the model"
 LEVEL_TEXT = ("Full-strength theorems over the pacing model for every positive rational speed, all times and all processing costs: the tick for t is due "
               "no earlier than last + (t - t_prev)/speed and never before now; exactly then when the wait is a whole number of ns and not overdue; an "
               "interrupt arriving at real time r is stamped t_prev + floor((r - last)*speed) and its own tick is due at once; the linear law "
-              "simTime - t0 = speed*(real - r0) is preserved by callback and interrupt ticks (integral products). Tied to master.py by (i) a "
+              "simTime - t0 = speed*(real - r0) is preserved by callback and interrupt ticks (integral products). RUN LEVEL (Props/C12Run, whole-simulation model at zero processing cost, any configuration and depth, with stimuli): at every tick simulation time is never ahead of real time - between consecutive ticks and cumulatively from the start (run_never_early); with callbacks only it lags by at most k*(num-1)/num ns after k ticks (each sleep is rounded up to a whole ns; the bound is attained) and the law is EXACT when the waits are integral, e.g. for every speed 1/den (run_linear_law, run_linear_exact); every handled stimulus is stamped by the stamp law, never ahead of real time, and the next tick starts at the very real time it arrived - its own tick with the interrupting component as a root, or the tick of an earlier wakeup (run_stamp_law). Tied to master.py by (i) a "
               "differential run of the real sleep_time / schedule_interrupt on generated (when, ticker.time, last_time, now, speed) with dyadic speeds "
               "and (ii) whole simulations under the virtual clock, with and without processing cost, whose tick start times must equal the model's. "
               "Float rounding of the real computation is outside the model (inputs are chosen so that the floats are exact).")
